@@ -122,8 +122,8 @@ CLAIMED = {
        'sender, recipient or envelope; STARTTLS not offered; encrypted) and the continuation does not mention the clear-text leftovers at all; '
        'the SASL exchange is entered only when AUTH is offered, EHLO accepted, not yet authenticated, no transaction open; an AUTH callback '
        'needs an encrypted session and PLAIN/LOGIN; malformed AUTH lines and bad/cancelled responses never end the session; the authed flag '
-       'rises only with a 235. Tied to the code by server sessions (5 prefixes x 9 injected byte strings x 10 TLS scripts, AUTH shapes x TLS modes x '
-       'positions x verdicts) and client STARTTLS runs over a stand-in TLS layer, plus real TLS runs on a socketpair.',
+       'rises only with a 235; on the client side (Model/Client.lean starttls): whatever bytes follow the server\'s 220 in clear text (forged replies, half a reply), the client\'s state after the handshake is the same: it reads from the TLS stream with an empty buffer (client_handshake_discards_cleartext, on top of C17\'s exact-consumption theorem). Tied to the code by server sessions (5 prefixes x 9 injected byte strings x 10 TLS scripts, AUTH shapes x TLS modes x '
+       'positions x verdicts) and client STARTTLS runs over a stand-in TLS layer (compared with the client model), plus real TLS runs on a socketpair.',
   ref='6/C08', technique='Lean 4 proof (case analysis of STARTTLS/AUTH steps) + differential correspondence vs real smtp.Server/Client (stand-in and real TLS)',
   note='Partial: TLS channel and pysasl are outside the model.'),
  'C10': dict(
